@@ -419,6 +419,11 @@ theorem TaskInv.step {s : State} (h : TaskInv s) (st : Step) (hv : valid s st = 
           exact h1.of_eq rfl rfl rfl rfl rfl rfl rfl rfl rfl
         · exact h1.of_eq rfl rfl rfl rfl rfl rfl rfl rfl rfl
       · exact h1
+  | executeF prio cb =>
+    simp only [Tbox.C05.step]
+    split
+    · exact h
+    · exact h.execute (levelOf prio) cb
   | cancel id =>
     simp only [valid, Bool.and_eq_true, decide_eq_true_eq] at hv
     simp only [Tbox.C05.step]
